@@ -237,6 +237,20 @@ def run_case(case, seed, c, st):
                     e = np.abs(Dk - want).max() / dscale_(Dref[k])
                     if e > TOL:
                         return fail("q-layout", "D(%sq) evaluated at a row of a %s array differs from the same q as a fresh array by %.3g" % ("-" if sgn < 0 else "", lname, e), e)
+    # 5c ... nor on how the caller stores the force constants ((3N,3M) Hessian viewed as (N,M,3,3); Fortran order)
+    if lang == "C":
+        n1, n2 = fc.shape[:2]
+        Hs = np.ascontiguousarray(fc.transpose(0, 2, 1, 3).reshape(3 * n1, 3 * n2))
+        for lname, fv in (("hessian-view", Hs.reshape(n1, 3, n2, 3).transpose(0, 2, 1, 3)), ("fortran-order", np.asfortranarray(fc))):
+            dmv = DynamicalMatrix(ph.supercell, ph.primitive, fv)
+            for q in base[8:10]:
+                dmv.run(np.asarray(q, float), lang=lang)
+                trans[0] += 1
+                e = np.abs(np.array(dmv.dynamical_matrix) - D(q)).max() / scale
+                if e > TOL:
+                    return fail("fc-layout", "D(q) from the same force constants stored as %s differs by %.3g" % (lname, e), e)
+            if not np.array_equal(fv, fc):
+                return fail("fc-layout-input-modified", "force constants handed in as %s were modified" % lname, 1.0)
     # 6 scaling: fc*s, masses*t through the Phonopy API
     npairs_S = 0
     if lang == "C":
